@@ -81,8 +81,8 @@ def run(ctx):
                              if cls in ("mutated", "chars", "rings") and len(x) > 6 else None)
     except AbortWorkload as e:
         ctx.count("workload_aborted_after_step_bound_violations")
+    atheris_campaign(ctx, "encoder", runs=20000 if quick else 300000, T=T)
     T.close()
-    atheris_campaign(ctx, "encoder", runs=20000 if quick else 300000)
     for k, v in MON.counts.items():
         ctx.count(k, v)
 
